@@ -66,6 +66,8 @@ func unhx(h string) string {
 	return string(b)
 }
 
+var dryRun bool
+
 func writeCases(path string, p Prop, cases []Case) error {
 	f, err := os.Create(path)
 	if err != nil {
@@ -73,7 +75,12 @@ func writeCases(path string, p Prop, cases []Case) error {
 	}
 	w := bufio.NewWriterSize(f, 1<<20)
 	for _, c := range cases {
-		obs := safeExec(p, c)
+		var obs []string
+		if dryRun {
+			obs = make([]string, len(c.Ops))
+		} else {
+			obs = safeExec(p, c)
+		}
 		fmt.Fprintf(w, "begin\t%s", c.ID)
 		for _, v := range c.Variant {
 			fmt.Fprintf(w, "\t%s", v)
@@ -160,6 +167,7 @@ func main() {
 	in := fs.String("in", "", "input case file (exec)")
 	out := fs.String("out", "", "output case file")
 	stats := fs.String("stats", "", "stats json")
+	fs.BoolVar(&dryRun, "dry", false, "gen: write the cases without executing them")
 	fs.Parse(os.Args[3:])
 
 	switch mode {
